@@ -110,6 +110,8 @@ class Store:
         self.variants: dict[str, tuple[bytes, str | None]] = {}
         self.corrupted_served: set[str] = set()
         self.preserving: set[str] = set()
+        self.flaky = False  # a store with a transient fault: the first GET of every object answers 503
+        self.flaked: set[str] = set()
         self.origin = origin_mod.Origin(self.route, name="S").start()
         self.base = self.origin.base
         self.seq = 0
@@ -148,6 +150,7 @@ class Store:
             self.variants.clear()
             self.corrupted_served.clear()
             self.preserving.clear()
+            self.flaked.clear()
             self.plan = plan
         self.origin.clear()
 
@@ -174,6 +177,12 @@ class Store:
         if verb != "o" or req.method not in ("GET", "HEAD") or ent["data"] is None:
             return {"status": 403, "body": b"method not allowed for this url"}
         data, ce = ent["data"], ent["ce"]
+        if self.flaky and req.method == "GET":
+            with self.lock:
+                first_get = oid not in self.flaked
+                self.flaked.add(oid)
+            if first_get:
+                return {"status": 503, "body": b"try again"}
         if self.is_target(oid):
             with self.lock:
                 if oid not in self.variants:
@@ -601,6 +610,7 @@ def execute(env: Env, program: dict[str, Any], spec: dict[str, Any], *, per_call
         logs.append(rig.norm_log(msg))
 
     env.store.begin(plan)
+    env.store.flaky = bool(spec.get("flaky"))
     env.resolved.clear()
     env.drop_digest = bool(spec.get("drop_digest"))
     traces: list[Any] = []
@@ -990,6 +1000,8 @@ def main(tier: str, seed: int) -> int:
             if t is None and codec:
                 continue
             specs.append({"threshold": t, "codec": codec, "fetch": "parallel" if (len(specs) % 3 == 1) else "single"})
+    # the same grid against a store with a transient fault (first GET of every object: 503, the retry succeeds)
+    specs += [{"threshold": 0, "codec": None, "fetch": "single", "flaky": True}, {"threshold": 48, "codec": "zstd", "fetch": "single", "flaky": True}]
     up_specs = [{"cap": c, "fetch": f} for c, f in ((3000, "single"), (8000, "parallel"), (20000, "single"), (10**9, "single"))]
     jobs: list[dict[str, Any]] = []
     n = shard.ncpu()
